@@ -490,6 +490,8 @@ def dispatch(ctx, case):
         return intarr_pow_fails(case, ctx)
     if case.get('op') == 'intbase-pow':
         return intbase_pow_fails(case)
+    if case.get('op') == 'arrbase-pow':
+        return arrbase_pow_fails(case)
     if case.get('op') == 'one-element-const':
         return one_element_const_fails(case)
     if case.get('op') == 'bigexp-pow':
@@ -518,6 +520,7 @@ def run(ctx):
     systematic_intarr_pow(ctx)
     systematic_pow_dtypes(ctx)
     systematic_intbase_pow(ctx)
+    systematic_arrbase_pow(ctx)
     systematic_bigexp_pow(ctx)
     systematic_one_element_const(ctx)
     for i in range(n):
@@ -662,6 +665,53 @@ def intarr_pow_fails(case, ctx=None):
                 if not np.allclose(y.data[mask], np.asarray(m[0], dtype=float)[mask], rtol=1e-12, atol=1e-13):
                     return 'mismatch-intarr-pow: entries with exponent %d differ from the masked-product model (largest exponent %d)' % (e, rmax)
     return None
+
+
+def arrbase_pow_fails(case):
+    """r ** x with r an ARRAY (or nested list) of positive bases of the same, lower or HIGHER rank than x: the result has NumPy's
+    broadcast shape and entry by entry it is the scalar-base power r[i] ** x[j] (tied to the model by the scalar_base cases)"""
+    x = np.array(case['x'])
+    r = np.array(case['r'], dtype=float)
+    D, P = x.shape[:2]
+    with np.errstate(all='ignore'):
+        try:
+            y = (r.tolist() if case.get('list') else r) ** UTPM(x.copy())
+        except Exception as ex:
+            return 'arrbase-pow-exception: array ** x raised %s (base shape %s, x shape %s)' % (type(ex).__name__ + ':' + str(ex)[:60], r.shape, x.shape[2:])
+        if not isinstance(y, UTPM):
+            return 'arrbase-pow-type: array ** x returned %s' % type(y).__name__
+        bs = np.broadcast_shapes(r.shape, x.shape[2:])
+        if y.data.shape != (D, P) + bs:
+            return 'arrbase-pow-shape: array ** x has coefficient shape %s, expected %s (base shape %s, x shape %s)' % (y.data.shape, (D, P) + bs, r.shape, x.shape[2:])
+        rb = np.broadcast_to(r, bs)
+        xb = np.broadcast_to(x.reshape((D, P) + (1,) * (len(bs) - (x.ndim - 2)) + x.shape[2:]), (D, P) + bs)
+        for idx in np.ndindex(*bs):
+            sel = (slice(None), slice(None)) + idx
+            want = (float(rb[idx]) ** UTPM(xb[sel].copy())).data
+            if not np.allclose(y.data[sel], want, rtol=1e-12, atol=1e-13):
+                return 'arrbase-pow: entry %s of array ** x differs from the scalar-base power %r ** x[...] (base shape %s, x shape %s, P=%d)' % (
+                    idx, float(rb[idx]), r.shape, x.shape[2:], P)
+    return None
+
+
+def systematic_arrbase_pow(ctx):
+    rng = ctx.rng
+    for how in ('same', 'lower', 'higher', 'higherP', 'higherD', 'scalar-x-P', 'scalar-x-D'):
+        for as_list in (False, True):
+            D, P = rng.randint(2, 4), 2
+            s = rng.choice([(3,), (2, 3)])
+            if how.startswith('scalar-x'):
+                s = ()
+            rs = {'same': s, 'lower': s[-1:], 'higher': (4,) + s, 'higherP': (P,) + s, 'higherD': (D,) + s, 'scalar-x-P': (P,), 'scalar-x-D': (D,)}[how]
+            x = rand_coeffs(rng, (D, P) + s, -1, 1)
+            r = np.array([rng.choice([2.0, 0.5, 3.0, 1.5]) for _ in range(int(np.prod(rs)))]).reshape(rs)
+            r.reshape(-1)[0], r.reshape(-1)[-1] = 2.0, 3.0
+            case = {'op': 'arrbase-pow', 'D': D, 'P': P, 'x': x, 'r': r.tolist(), 'list': as_list, 'how': how}
+            ctx.evaluations += 1
+            ctx.count('rpow:array-base')
+            res = arrbase_pow_fails(case)
+            if res is not None:
+                ctx.report(case, 'failure', res)
 
 
 def systematic_intarr_pow(ctx):
